@@ -148,7 +148,7 @@ class Repository(object):
 
     def push(self, name):
         try:
-            self.cmd('git push --set-upstream origin ' + name)
+            self.cmd('git push --atomic --set-upstream origin ' + name)
         except CommandError as err:
             raise PushFailedException(name) from err
 
